@@ -59,6 +59,11 @@ def step (s : S) (line : String) : S × String :=
     | some r =>
       let fin (res : String) (r' : Rng) : S × String := ({ s with r := some r' }, res)
       if op == "peek" then let (x, r') := r.next; fin s!"ok {x}" r'
+      else if op == "poke" then
+        -- force the next pre-tempering state word (generator states that seeds make astronomically rare)
+        let r1 := if r.st.mti ≥ 624 then (r.next).2 else r
+        let raw := UInt32.ofNat ((argNat? ws "raw").getD 0)
+        fin "ok" { r1 with st := { r1.st with mt := r1.st.mt.setIfInBounds r1.st.mti raw } }
       else if op == "cshuffle" then
         match argBytes ws "s" with
         | some a => let (o, r') := cShuffle a r; fin ("ok " ++ hexA o) r'
